@@ -133,7 +133,7 @@ def run_rule_maps(case, ctx):
         ctx.label("build-assert")
         return
     cls = form.comb_class
-    ctx.label("form:" + case["form"][0], "type:" + type(form).__name__)
+    ctx.label("form:" + case["form"][0], "strat:" + case["strategy"][0], "type:" + type(form).__name__)
     N = 5 if len(cls.alphabet) <= 2 else 4
     mapped = 0
     supports = True
